@@ -186,10 +186,13 @@ Fixpoint insert_sorted (x : str) (l : list str) : list str :=
 Definition sorted_set (l : list str) : list str := fold_right insert_sorted [] l.
 
 (* analyze_python_source(source, allow_print, base) after a successful ast.parse;
-   sibling r: (base / f"{r}.py").exists() or (base / r).is_dir() *)
-Definition source_viols (sibling : str -> bool) (allow_print : bool) (t : tree) : list viol :=
+   sibling r: (base / f"{r}.py").exists() or (base / r).is_dir();
+   local: local_shadow(base) is not None (repair 7bd370f: some entry of base is importable and named like
+   a standard-library or safe-listed module) *)
+Definition source_viols (sibling : str -> bool) (local : bool) (allow_print : bool) (t : tree) : list viol :=
   visit allow_print false t ++
-  flat_map (fun r => if sibling r then [(KShadow, r)] else []) (sorted_set (roots t)).
+  flat_map (fun r => if sibling r then [(KShadow, r)] else []) (sorted_set (roots t)) ++
+  (if local then [(KShadow, [])] else []).
 
 (* the kinds the model dispatches on are exactly the visit_ methods of the class (tie, see Proofs) *)
 Definition visit_kinds : list str :=
@@ -255,11 +258,36 @@ Definition pjoin (cwd tok : str) : str :=
 
 Inductive pyres := PAllow | PAsk | PExn.
 
+(* ---- _writes_files_xoption(tokens, end) (repair 6fb4634): l = tokens[1:], n = end - 1 words are looked at;
+   token.split("X", 1)[1] or the next word *)
+Fixpoint after_X (t : str) : option str :=
+  match t with
+  | [] => None
+  | c :: r => if N.eqb c 88 then Some r else after_X r
+  end.
+Definition xvalue_writes (v : str) : bool := prefixb $"pycache_prefix" v || prefixb $"perf" v.
+Fixpoint wfx (n : nat) (l : list str) : bool :=
+  match n, l with
+  | S n', t :: r =>
+      (if is_dash t && negb (prefixb $"--" t) then
+         match after_X t with
+         | Some v => xvalue_writes (if is_empty v then hd [] r else v)
+         | None => false
+         end
+       else false) || wfx n' r
+  | _, _ => false
+  end.
+
+(* repair 1872043: tokens[idx].startswith("~") or any(c in tokens[idx] for c in "$`{*?[") *)
+Definition rewritten_chars : list N := [36; 96; 123; 42; 63; 91].
+Definition shell_rewrites (tok : str) : bool :=
+  prefixb [126] tok || existsb (fun c => mem_ch c tok) rewritten_chars.
+
 Section Classify.
   Variable resolve : str -> option str.   (* str(Path(p).resolve()); None: raises (embedded NUL) *)
   Variable analyze : str -> bool.         (* analyze_python_file(Path(p))[0] *)
 
-  Variable shadow : str -> bool.          (* (cwd / "calendar.py").exists() or (cwd / "calendar").is_dir() *)
+  Variable shadow : str -> bool.          (* (cwd / "calendar.py").exists() or (cwd / "calendar").is_dir() or local_shadow(cwd) is not None *)
 
   (* classify(ctx).action; ctx_cwd = ctx.cwd, proc_cwd = Path.cwd() *)
   Definition classify (ctx_cwd : option str) (proc_cwd : str) (tokens : list str) : pyres :=
@@ -272,6 +300,7 @@ Section Classify.
         let seen := sc_seen r in
         if negb (forallb (fun o => mem_str o PY_KNOWN_OPTIONS) seen) then PAsk
         else if existsb (fun o => mem_str o PY_INFO_OPTIONS) seen then PAllow
+        else if mem_str $"-X" seen && wfx (sc_idx r - 1) rest then PAsk
         else if match sc_mode r with Some c => N.eqb c 99 | None => false end then PAsk
         else if mem_str $"-i" seen || mem_str $"-x" seen then PAsk
         else if match sc_mode r with Some c => N.eqb c 109 | None => false end then
@@ -284,6 +313,7 @@ Section Classify.
           | None => PAsk
           | Some tok =>
               if str_eqb tok dash then PAsk
+              else if shell_rewrites tok then PAsk
               else match resolve (pjoin cwd tok) with
                    | None => PExn
                    | Some p => if analyze p then PAllow else PAsk
